@@ -58,11 +58,15 @@ func (k Keeper) handleBridgeHook(ctx sdk.Context, data []byte, hookMaxGas uint64
 			return
 		}
 
-		_, err = handler(cacheCtx, msg)
+		res, err := handler(cacheCtx, msg)
 		if err != nil {
 			reason = fmt.Sprintf("Failed to execute Msg: %s", err)
 			return
 		}
+
+		// the router runs every handler on a fresh event manager and hands the events back in the result;
+		// forward them so that they are committed (or discarded) together with the hook's state changes
+		cacheCtx.EventManager().EmitEvents(res.GetEvents())
 	}
 
 	commit()
